@@ -30,6 +30,7 @@ TOTAL = {
     'bytes::BytesMut::freeze', 'bytes::BytesMut::split',
     # Option / Result combinators
     '<core::result::Result as core::ops::FromResidual>::from_residual', '<core::result::Result as core::ops::Try>::branch',
+    '<core::option::Option as core::ops::FromResidual>::from_residual', '<core::option::Option as core::ops::Try>::branch',
     'core::option::Option::as_ref', 'core::option::Option::is_none', 'core::option::Option::is_some',
     'core::option::Option::is_some_and', 'core::option::Option::map', 'core::option::Option::or_else',
     'core::option::Option::take', 'core::option::Option::unwrap_or', 'core::option::Option::unwrap_or_else',
@@ -80,6 +81,12 @@ TOTAL_PREFIXES = ('core::fmt::', '<alloc::boxed::Box as core::fmt::', '<alloc::s
                   '<usize as core::fmt::', '<bool as core::fmt::', '<core::time::Duration as core::fmt::',
                   '<core::num::NonZero as core::fmt::', '<core::option::Option as core::fmt::',
                   '<alloc::vec::Vec as core::fmt::', '<bincode::error::', '<postcard::Error as')
+
+# comparison impls of the primitive types: total functions, whatever the width
+import re as _re
+TOTAL_RE = _re.compile(r'^core::cmp::impls::<impl core::cmp::(Ord|PartialOrd|PartialEq|Eq) for '
+                       r'(u8|u16|u32|u64|u128|usize|i8|i16|i32|i64|i128|isize|bool|char)>::'
+                       r'(cmp|partial_cmp|eq|ne|lt|le|gt|ge|max|min)$')
 
 # third-party entry points that are documented to return Result for every input; their internals are outside
 # the crate (trusted: see DESIGN section 9)
@@ -133,7 +140,7 @@ AUDITED = {
     ('member::Members::choose_members', 'call', '<alloc::vec::Vec as core::ops::IndexMut>::index_mut'):
         'reached only on the failing edge of `num_chosen < wanted` (checked) with replace_at < wanted (checked); every '
         'increment of num_chosen is paired with a push onto output, so output.len() >= num_chosen >= wanted',
-    ('member::Members::apply::{closure#1}', 'call', 'core::slice::<impl [T]>::swap'):
+    ('member::Members::apply', 'call', 'core::slice::<impl [T]>::swap'):
         'both indices are < len: inserted_at = len-1 after the push; swap_idx is drawn from 0..len or is inserted_at',
     ('Foca::send_message', 'call', 'core::result::Result::expect'):
         'u16::try_from(Broadcasts::fill(.., max_items = u16::MAX)): fill never returns more than max_items '
@@ -161,13 +168,12 @@ AUDITED = {
 
 # arithmetic asserts discharged by a written argument; key = (function, 'assert', kind:operand origins)
 AUDITED_ASSERTS = {
-    ('member::Members::next::{closure#1}', 'assert', 'Overflow(Add):pos,upvar:self__cursor'):
+    ('member::Members::next', 'assert', 'Overflow(Add):arg2,self.cursor'):
         'pos is an index into inner.iter().skip(cursor), so pos + cursor < inner.len() <= isize::MAX',
-    ('member::Members::choose_members', 'assert', 'Overflow(Add):num_seen,1'):
-        'counts elements of self.inner visited by this loop: <= inner.len() <= isize::MAX',
-    ('member::Members::choose_members', 'assert', 'Overflow(Add):num_chosen,1'):
-        'guarded by num_chosen < wanted: cannot reach usize::MAX',
-    ('member::Members::apply::{closure#1}', 'assert', 'Overflow(Sub):len(upvar:self__inner),1'):
+    ('member::Members::choose_members', 'assert', 'Overflow(Add):counter:usize,1'):
+        'num_seen / num_chosen: usize counters starting at 0 and stepped by 1 at most once per element of self.inner '
+        'visited by this loop: <= inner.len() <= isize::MAX',
+    ('member::Members::apply', 'assert', 'Overflow(Sub):len(self.inner),1'):
         '`self.inner.len() - 1` immediately after `self.inner.push(..)` (checked: push precedes, nothing shrinks it)',
     ('probe::Probe::receive_indirect_ack', 'assert', 'Overflow(Add):self.indirect_ack_count,1'):
         'every increment removes one element from `indirect` (checked: paired with swap_remove), bounded by memory',
@@ -179,15 +185,17 @@ AUDITED_ASSERTS = {
     ('Foca::send_message', 'assert', 'Overflow(Add):num_items,1'):
         '`num_items += 1` (u16) runs once per element popped from choice_buf, which holds at most `wanted` elements, '
         'and wanted is min(estimate, u16::MAX) (checked: D6 repair)',
-    ('broadcast::Broadcasts::fill', 'assert', 'Overflow(Add):num_taken,1'):
-        'num_taken counts heap entries popped in this call: bounded by memory',
-    ('broadcast::Broadcasts::fill_with_len_prefix', 'assert', 'Overflow(Add):num_taken,1'):
+    ('broadcast::Broadcasts::fill', 'assert', 'Overflow(Add):counter:usize,1'):
+        'a usize counter from 0 stepped by 1: num_taken counts heap entries popped in this call: bounded by memory',
+    ('broadcast::Broadcasts::fill_with_len_prefix', 'assert', 'Overflow(Add):counter:usize,1'):
         'as fill',
-    ('broadcast::Broadcasts::fill_with_len_prefix', 'assert', 'Overflow(Add):len(node.data),2'):
+    ('broadcast::Broadcasts::fill_with_len_prefix', 'assert', 'Overflow(Add):len(pop(self.flip).some.data),2'):
         'a Vec length is <= isize::MAX, so + 2 cannot overflow usize',
-    ('<codec::postcard_impl::PostcardCodec as codec::Codec>::decode_header', 'assert', 'Overflow(Sub):remaining,after'):
+    ('<codec::postcard_impl::PostcardCodec as codec::Codec>::decode_header', 'assert',
+     'Overflow(Sub):remaining(arg2),len(take_from_bytes(chunk(arg2)).ok.1)'):
         'rest is the tail take_from_bytes returns for buf.chunk(), whose length equals remaining (debug-asserted), '
         'so rest.len() <= remaining',
-    ('<codec::postcard_impl::PostcardCodec as codec::Codec>::decode_member', 'assert', 'Overflow(Sub):remaining,after'):
+    ('<codec::postcard_impl::PostcardCodec as codec::Codec>::decode_member', 'assert',
+     'Overflow(Sub):remaining(arg2),remaining(take_from_bytes(chunk(arg2)).ok.1)'):
         'as decode_header',
 }
